@@ -44,8 +44,26 @@ pub struct Flattener {
 
 impl Flattener {
     pub fn fold(expr: Expr) -> Expr {
+        #[cfg(feature = "verif")]
+        if true {
+            return Self::verif_fold(expr);
+        }
         let mut f = Flattener::default();
         f.fold_expr(expr).unwrap()
+    }
+
+    /// Verification hook (feature `verif`): `fold` with its input and output recorded in the trace.
+    #[cfg(feature = "verif")]
+    fn verif_fold(expr: Expr) -> Expr {
+        let input = serde_json::to_value(&expr).unwrap_or_default();
+        let mut f = Flattener::default();
+        let res = f.fold_expr(expr).unwrap();
+        crate::sql::verif_hooks::trace_event(serde_json::json!({
+            "event": "flatten",
+            "input": input,
+            "output": res,
+        }));
+        res
     }
 }
 
